@@ -246,10 +246,20 @@ pub enum ContK {
 }
 
 #[derive(Clone, Copy, Debug, PartialEq, Eq)]
+pub enum Api {
+	Lock,
+	TryLock,
+	Read,
+	TryRead,
+}
+
+#[derive(Clone, Copy, Debug, PartialEq, Eq)]
 pub struct Subj {
 	pub lock: LockTy,
 	pub pois: bool,
 	pub coll: Option<(CollK, ContK)>,
+	/// which acquiring API the programs use (quick: Lock only)
+	pub api: Api,
 }
 
 pub const PRELUDE: &str = "#![allow(unused)]\nuse happylock::*;\nuse happylock::collection::*;\nuse happylock::lockable::*;\nuse happylock::poisonable::*;\nuse happylock::mutex::{MutexGuard, MutexRef};\nuse happylock::rwlock::{RwLockReadGuard, RwLockWriteGuard, RwLockReadRef, RwLockWriteRef};\nuse std::sync::Arc;\nuse std::cell::Cell;\nuse std::rc::Rc;\n";
@@ -258,24 +268,65 @@ impl Subj {
 	pub fn all() -> Vec<Subj> {
 		let mut v = Vec::new();
 		for lock in [LockTy::Mutex, LockTy::RwLock] {
-			v.push(Subj { lock, pois: false, coll: None });
-			v.push(Subj { lock, pois: true, coll: None });
+			v.push(Subj { lock, pois: false, coll: None, api: Api::Lock });
+			v.push(Subj { lock, pois: true, coll: None, api: Api::Lock });
 			for k in [CollK::Boxed, CollK::Ref, CollK::Owned, CollK::Retry] {
 				for c in [ContK::Tuple, ContK::Array, ContK::Vec, ContK::Boxed] {
-					v.push(Subj { lock, pois: false, coll: Some((k, c)) });
+					v.push(Subj { lock, pois: false, coll: Some((k, c)), api: Api::Lock });
 				}
 			}
 		}
 		v
 	}
+	/// the subjects x every acquiring API that exists for them
+	pub fn all_with_apis() -> Vec<Subj> {
+		let mut v = Vec::new();
+		for s in Subj::all() {
+			v.push(s);
+			v.push(Subj { api: Api::TryLock, ..s });
+			if s.lock == LockTy::RwLock {
+				v.push(Subj { api: Api::Read, ..s });
+				v.push(Subj { api: Api::TryRead, ..s });
+			}
+		}
+		v
+	}
+	pub fn is_read(&self) -> bool {
+		matches!(self.api, Api::Read | Api::TryRead)
+	}
+	pub fn is_try(&self) -> bool {
+		matches!(self.api, Api::TryLock | Api::TryRead)
+	}
+	/// "&mut" / "&": what kind of reference a section of this API hands out
+	pub fn rmut(&self) -> &'static str {
+		if self.is_read() {
+			"&"
+		} else {
+			"&mut"
+		}
+	}
+	/// a statement that uses the reference `r` (write through it / read it)
+	pub fn use_ref(&self, r: &str) -> String {
+		if self.is_read() {
+			format!("let _v: i32 = *{r};")
+		} else {
+			format!("*{r} = 5;")
+		}
+	}
 	pub fn name(&self) -> String {
 		format!(
-			"{}{:?}{}",
+			"{}{:?}{}{}",
 			if self.pois { "Poisonable" } else { "" },
 			self.lock,
 			match self.coll {
 				Some((k, c)) => format!("-in-{k:?}-of-{c:?}"),
 				None => String::new(),
+			},
+			match self.api {
+				Api::Lock => "",
+				Api::TryLock => "-via-try_lock",
+				Api::Read => "-via-read",
+				Api::TryRead => "-via-try_read",
 			}
 		)
 	}
@@ -408,24 +459,47 @@ impl Subj {
 			(false, LockTy::RwLock) => "try_write",
 		}
 	}
+	/// the scoped method of this subject's API
 	pub fn scoped_write_method(&self) -> &'static str {
-		match (self.coll.is_some() || self.pois, self.lock) {
-			(true, _) => "scoped_lock",
-			(false, LockTy::Mutex) => "scoped_lock",
-			(false, LockTy::RwLock) => "scoped_write",
+		let wrapped = self.coll.is_some() || self.pois;
+		match (self.api, wrapped, self.lock) {
+			(Api::Lock, true, _) | (Api::Lock, false, LockTy::Mutex) => "scoped_lock",
+			(Api::Lock, false, LockTy::RwLock) => "scoped_write",
+			(Api::TryLock, true, _) | (Api::TryLock, false, LockTy::Mutex) => "scoped_try_lock",
+			(Api::TryLock, false, LockTy::RwLock) => "scoped_try_write",
+			(Api::Read, _, _) => "scoped_read",
+			(Api::TryRead, _, _) => "scoped_try_read",
+		}
+	}
+	/// suffix that turns the result of the scoped call into the closure's value
+	pub fn scoped_suffix(&self) -> &'static str {
+		if self.is_try() {
+			".ok().unwrap()"
+		} else {
+			""
 		}
 	}
 	pub fn unlock_fn(&self) -> &'static str {
+		if self.is_read() {
+			return "unlock_read";
+		}
 		match (self.coll.is_some() || self.pois, self.lock) {
 			(true, _) => "unlock",
 			(false, LockTy::Mutex) => "unlock",
 			(false, LockTy::RwLock) => "unlock_write",
 		}
 	}
-	/// `s.lock(KEY)` yielding the guard value itself
+	/// `s.lock(KEY)` (or the API variant) yielding the guard value itself
 	pub fn acquire(&self, s: &str, key: &str) -> String {
-		let m = self.write_method();
-		if self.pois {
+		let m = match self.api {
+			Api::Lock => self.write_method(),
+			Api::TryLock => self.try_write_method(),
+			Api::Read => "read",
+			Api::TryRead => "try_read",
+		};
+		if self.is_try() {
+			format!("{s}.{m}({key}).ok().unwrap()")
+		} else if self.pois {
 			format!("{s}.{m}({key}).unwrap()")
 		} else {
 			format!("{s}.{m}({key})")
@@ -483,9 +557,9 @@ fn pair_from(prop: &str, family: &str, name: String, template: &str, twin: &str,
 	}
 }
 
-pub fn families_c14() -> Vec<Pair> {
+pub fn families_c14(subjects: &[Subj]) -> Vec<Pair> {
 	let mut v = Vec::new();
-	for s in Subj::all() {
+	for s in subjects.iter().copied() {
 		let n = s.name();
 		let decl = s.decl();
 		let acq = |k: &str| s.acquire("s", k);
@@ -750,9 +824,9 @@ pub fn families_c14() -> Vec<Pair> {
 	v
 }
 
-pub fn families_c15() -> Vec<Pair> {
+pub fn families_c15(subjects: &[Subj]) -> Vec<Pair> {
 	let mut v = Vec::new();
-	for s in Subj::all() {
+	for s in subjects.iter().copied() {
 		let n = s.name();
 		let decl = s.decl();
 		let acq = s.acquire("s", "key");
@@ -763,9 +837,9 @@ pub fn families_c15() -> Vec<Pair> {
 			"C15",
 			"D1-reference-outlives-guard",
 			n.clone(),
-			&wrap_fn(&format!("    let key = ThreadKey::get().unwrap();\n    {decl}\n    let mut g = {acq};\n    let r: &mut i32 = &mut {first};\n@@\n")),
-			"    *r = 5;\n    drop(g);",
-			"    drop(g);\n    *r = 5;",
+			&wrap_fn(&format!("    let key = ThreadKey::get().unwrap();\n    {decl}\n    let mut g = {acq};\n    let r: {rm} i32 = {rm} {first};\n@@\n", rm = s.rmut())),
+			&format!("    {}\n    drop(g);", s.use_ref("r")),
+			&format!("    drop(g);\n    {}", s.use_ref("r")),
 		));
 		// D2: a guard outlives its lock
 		v.push(pair_from(
@@ -783,8 +857,8 @@ pub fn families_c15() -> Vec<Pair> {
 			"D3-reference-escapes-scoped-closure",
 			n.clone(),
 			&wrap_fn(&format!("    let mut key = ThreadKey::get().unwrap();\n    {decl}\n@@\n")),
-			&format!("    let v: i32 = s.{sm}(&mut key, |x| {{ let r: &mut i32 = {fd}; *r }});"),
-			&format!("    let r: &mut i32 = s.{sm}(&mut key, |x| {{ let r: &mut i32 = {fd}; r }});\n    *r = 7;"),
+			&format!("    let v: i32 = s.{sm}(&mut key, |x| {{ let r: {rm} i32 = {fd}; *r }}){sfx};", rm = s.rmut(), sfx = s.scoped_suffix()),
+			&format!("    let r: {rm} i32 = s.{sm}(&mut key, |x| {{ let r: {rm} i32 = {fd}; r }}){sfx};\n    {}", s.use_ref("r"), rm = s.rmut(), sfx = s.scoped_suffix()),
 		));
 		// D7: &mut / by-value access to the lock while a guard lives
 		if s.coll.is_none() {
